@@ -74,6 +74,8 @@ def check_manager(nb):
         "to_dict()": lambda: sm.to_dict(),
         "compute_results()": lambda: ragged_ok(lambda: sm.compute_results()) if nb else None,
         "compute_logw_and_logz()": lambda: sm.compute_logw_and_logz(1.0) if nb else None,
+        "compute_logw_and_logz(normalize=False)": lambda: sm.compute_logw_and_logz(1.0, normalize=False) if nb else None,
+        "compute_logw_and_logz(0.5, normalize=False)": lambda: sm.compute_logw_and_logz(0.5, normalize=False) if nb else None,
     }
     for name, f in acc.items():
         first = f()
@@ -85,6 +87,12 @@ def check_manager(nb):
         again = f()
         if not _eq(again, again_before):
             return f"writing into the result of {name} changed what the next call returns (history batches: {nb})"
+        if nb and name.startswith("compute_logw"):
+            # ... nor what the other form of the same query returns
+            other = sm.compute_logw_and_logz(1.0)
+            fresh = StateManager.from_dict(copy.deepcopy(sm.to_dict())).compute_logw_and_logz(1.0)
+            if not _eq(other, fresh):
+                return f"writing into the result of {name} changed what compute_logw_and_logz(1.0) returns afterwards (history batches: {nb})"
     # setters copy by default; commits are not aliased to current
     buf = rng.rand(4, 2)
     sm.set_current("u", buf)
